@@ -4,6 +4,7 @@ import (
 	eval "github.com/onheap/eval"
 
 	"verifmc/drive"
+	"verifmc/ref"
 	"verifmc/rep"
 	"verifmc/sx"
 	"verifmc/term"
@@ -202,6 +203,18 @@ func extraPrograms() []*Prog {
 		add(term.Op("not", B, term.Op("and", B, kb(), b(), b())))
 		add(term.Op("+", I, ki(), term.Const(1), term.Const(2), term.Const(3), term.Const(4), term.Const(5), term.Const(6), term.Const(7), n()))
 	}
+	// the empty list literal (typed as an empty string list by the parser) as
+	// the collection of `in` / `overlap` with operands of either element type
+	{
+		empty := func() *term.Term { return &term.Term{K: term.KConst, Val: []string{}, Lit: "()", Ty: term.TSL} }
+		sv := func() *term.Term { return term.Var("s", term.TS) }
+		add(term.Op("in", B, n(), empty()))
+		add(term.Op("in", B, sv(), empty()))
+		add(term.Op("not", B, term.Op("in", B, n(), empty())))
+		add(term.Op("or", B, term.Op("in", B, n(), empty()), b()))
+		add(term.If(term.Op("in", B, n(), empty()), n(), term.Const(7)))
+		add(term.Op("in", B, term.Op("+", I, n(), term.Const(1)), empty()))
+	}
 	// string literals spelled like markers / keywords
 	for _, lit := range []string{"fi", "if", "eventNode", "DNE", "true", "nil"} {
 		sv := func() *term.Term { return term.Var("s", term.TS) }
@@ -238,6 +251,11 @@ func harnesses(n int) []*drive.Harness {
 	hs := make([]*drive.Harness, n)
 	for i := range hs {
 		hs[i] = drive.NewHarness()
+		// the caller's config also registers a (wrong) operator under every
+		// builtin name and alias: the builtin meaning always wins
+		for name := range ref.Alias {
+			hs[i].Register(name, func([]interface{}) (interface{}, error) { return "SHADOWED-BUILTIN", nil })
+		}
 	}
 	return hs
 }
